@@ -38,3 +38,12 @@ Theorem C19_event_one_ok : forall cfg st c x m rows prep cq add auth st' x' d,
   d = DContinue /\ exists f, c_out x' = f :: c_out x /\ is_ok f = true.
 Proof. exact event_one_ok. Qed.
 Print Assumptions C19_event_one_ok.
+
+(* Tie of an assumption built into the model: `emit` (a query task or a live push putting a frame on the connection's
+   answer queue) is total - it never waits for room, so a row step is enabled whenever its task runs and the connection is open
+   (see C13_row_step).  The translator confirms on every run that start_client creates that queue as `asyncio.Queue()` without
+   a size; with a bounded queue a task can be held at `put`, which the model has no state for. *)
+Theorem C19_answer_queue_tie : Gen.Web.answer_queue_unbounded = true.
+Proof. vm_compute. reflexivity. Qed.
+Print Assumptions C19_answer_queue_tie.
+
